@@ -19,7 +19,7 @@ from typing import Any, Callable
 import z3
 
 from .spec import SYM, _has_ite, f_cnt, f_dot
-from .types import (TBool, TDict, TInt, TNone, TNoneT, TObj, TOpaque, TOpt, TReal, TRec, TSeq, TSet, TSlice, TStr,
+from .types import (TRange, slice_indices_fn, slice_zero_step_fn, TBool, TDict, TInt, TNone, TNoneT, TObj, TOpaque, TOpt, TReal, TRec, TSeq, TSet, TSlice, TStr,
                     TTuple, TUnion, Ty, Val, VNone, fresh_name, unwrap, wrap)
 
 
@@ -2026,6 +2026,12 @@ class Engine:
                 raise Unsupported("unbound method call through the class", node)
             return self.apply_contract(c, [self.eval(a, st) for a in node.args], self._kwargs(node, st), st, node)
         recv = self.eval(f.value, st)
+        if recv.ty is TSlice and name == "indices" and len(node.args) == 1 and not node.keywords:
+            # slice.indices(n): a triple of ints, each an (uninterpreted) function of the slice and n
+            n_ = self.as_int(self.eval(node.args[0], st), st, node)
+            self.raise_if(st, slice_zero_step_fn()(recv.t), "ValueError", L if False else node.lineno)  # "slice step cannot be zero"
+            st.assume(slice_indices_fn(2)(recv.t, n_) != 0)  # (the step it returns is the slice's own, or 1)
+            return Val(TTuple([TInt, TInt, TInt]), [Val(TInt, slice_indices_fn(i)(recv.t, n_)) for i in range(3)])
         if recv.ty is TStr and name == "join" and len(node.args) == 1:
             self.eval(node.args[0], st)  # (evaluated for its exceptions; the text itself is opaque)
             return TStr.fresh("joined")
@@ -2358,6 +2364,27 @@ class Engine:
 
     def b_any(self, node, st, hint=None):
         return self._quant(node, st, False)
+
+    def b_range(self, node, st, hint=None):
+        """range(...) as a value: the record of its three parameters (range(a) / range(a, b) / range(a, b, c) /
+        range(*t) with t a triple of ints, e.g. slice.indices(n))."""
+        if node.keywords:
+            raise Unsupported("range with keywords", node)
+        if len(node.args) == 1 and isinstance(node.args[0], ast.Starred):
+            t = self.eval(node.args[0].value, st)
+            if not (isinstance(t.ty, TTuple) and len(t.t) == 3):
+                raise Unsupported("range(*x) of something else than a triple", node)
+            xs = [self.as_int(x, st, node) for x in t.t]
+        else:
+            xs = [self.as_int(self.eval(a, st), st, node) for a in node.args]
+            if len(xs) == 1:
+                xs = [z3.IntVal(0), xs[0], z3.IntVal(1)]
+            elif len(xs) == 2:
+                xs = [xs[0], xs[1], z3.IntVal(1)]
+            elif len(xs) != 3:
+                raise Unsupported("range arity", node)
+        self.raise_if(st, xs[2] == 0, "ValueError", node.lineno)
+        return Val(TRange, TRange.mk(start=xs[0], stop=xs[1], step=xs[2]))
 
     def b_slice(self, node, st, hint=None):
         if len(node.args) == 1 and isinstance(node.args[0], ast.Constant) and node.args[0].value is None:
